@@ -14,6 +14,11 @@
 //!   WE           the write of the send that is blocked at the gate fails (send_message returns Err after registering)
 //!   D <k>        the caller drops the ResponseFuture of send number k (if that send has returned one)
 //!   T <ms>       <ms> milliseconds of (virtual) time pass with every task idle
+//!   CA           the same client object gets a new connection (what connect() does on success; hook verif_attach_stream):
+//!                a fresh in-memory stream becomes the client's writer, a new reader task is spawned for it; the older
+//!                connections and their readers stay alive.  R/G/W/WE act on the newest connection
+//!   CF           connect() is called and fails (the client's address is a closed loopback port): real TcpStream::connect
+//!   SEL <c>      the peer events P/PS/PG/PT/B that follow act on connection number c (0 = the first; default: the newest)
 //! Output: one token per send, in order: GOT:<hop>:<e2e> | ERR | PENDING | DROPPED, then " READER " alive|stopped
 
 use crate::codec::State;
@@ -163,6 +168,9 @@ enum Ev {
     WE,
     D(usize),
     T(u64),
+    CA,
+    CF,
+    Sel(usize),
     P(u32, Option<usize>, u64),
     PT(u32, usize),
     B(String),
@@ -217,6 +225,9 @@ pub fn run(st: &State, t: &mut Toks) -> PResult<String> {
             "WE" => Ev::WE,
             "D" => Ev::D(t.usize_dec()?),
             "T" => Ev::T(t.u64()?),
+            "CA" => Ev::CA,
+            "CF" => Ev::CF,
+            "SEL" => Ev::Sel(t.usize_dec()?),
             "PT" => {
                 let h = t.u32()?;
                 Ev::PT(h, t.u64()? as usize)
@@ -228,32 +239,42 @@ pub fn run(st: &State, t: &mut Toks) -> PResult<String> {
     let res = catch_unwind(AssertUnwindSafe(|| {
         let rt = tokio::runtime::Builder::new_current_thread().enable_all().start_paused(true).build().expect("rt");
         rt.block_on(async move {
-            let duplex = Duplex(Arc::new(Mutex::new(DState::default())));
-            let mut client = DiameterClient::new("verif:0", DiameterClientConfig { use_tls: false, verify_cert: false });
-            let mut handler = client.verif_attach_stream(duplex.clone());
-            let reader_done = Arc::new(AtomicBool::new(false));
-            let rd = Arc::clone(&reader_done);
-            let dict_r = Arc::clone(&dict);
-            tokio::spawn(async move {
-                DiameterClient::handle(&mut handler, dict_r).await;
-                rd.store(true, Ordering::SeqCst);
-            });
+            // the client's own address is a loopback port nobody listens on: connect() (event CF) fails for real
+            let dead_port = {
+                let l = std::net::TcpListener::bind("127.0.0.1:0").expect("bind");
+                l.local_addr().expect("addr").port()
+            };
+            let mut client = DiameterClient::new(&format!("127.0.0.1:{}", dead_port), DiameterClientConfig { use_tls: false, verify_cert: false });
+            let mut conns: Vec<(Duplex, Arc<AtomicBool>)> = Vec::new();
+            {
+                let duplex = Duplex(Arc::new(Mutex::new(DState::default())));
+                let mut handler = client.verif_attach_stream(duplex.clone());
+                let reader_done = Arc::new(AtomicBool::new(false));
+                let rd = Arc::clone(&reader_done);
+                let dict_r = Arc::clone(&dict);
+                tokio::spawn(async move {
+                    DiameterClient::handle(&mut handler, dict_r).await;
+                    rd.store(true, Ordering::SeqCst);
+                });
+                conns.push((duplex, reader_done));
+            }
+            let mut sel: usize = 0;
             let client = Arc::new(tokio::sync::Mutex::new(client));
             let mut results: Vec<Option<SendResult>> = Vec::new();
             let mut dropped: Vec<usize> = Vec::new();
             let mut resolved: Vec<Option<String>> = Vec::new();
             let mut inflight: Option<(usize, tokio::task::JoinHandle<SendResult>)> = None;
-            let mut emitted: u32 = 0;
+            let mut emitted: Vec<u32> = vec![0];      // answers emitted so far, per connection (the end-to-end id of an answer)
             let nev = evs.len();
             for (ei, e) in evs.into_iter().enumerate() {
                 match e {
                     Ev::R(h) => {
                         // a previous send still blocked: finish it first (the API is &mut self)
                         if let Some((idx, jh)) = inflight.take() {
-                            duplex.allow(None);
+                            conns[conns.len() - 1].0.allow(None);
                             results[idx] = Some(jh.await.unwrap_or(Err(())));
                         }
-                        duplex.close_gate();
+                        conns[conns.len() - 1].0.close_gate();
                         let mut req = DiameterMessage::new(CommandCode::CreditControl, ApplicationId::CreditControl, 0x80, h, 7, Arc::clone(&dict));
                         req.add_avp(264, None, M, Identity::new("host.example.com").into());
                         let c = Arc::clone(&client);
@@ -264,15 +285,15 @@ pub fn run(st: &State, t: &mut Toks) -> PResult<String> {
                         results.push(None);
                         inflight = Some((results.len() - 1, jh));
                     }
-                    Ev::G(k) => duplex.allow(Some(k)),
+                    Ev::G(k) => conns[conns.len() - 1].0.allow(Some(k)),
                     Ev::W => {
                         if let Some((idx, jh)) = inflight.take() {
-                            duplex.allow(None);
+                            conns[conns.len() - 1].0.allow(None);
                             results[idx] = Some(jh.await.unwrap_or(Err(())));
                         }
                     }
                     Ev::WE => {
-                        duplex.fail_write();
+                        conns[conns.len() - 1].0.fail_write();
                         settle().await;
                         if let Some((idx, jh)) = inflight.take() {
                             if jh.is_finished() {
@@ -299,23 +320,52 @@ pub fn run(st: &State, t: &mut Toks) -> PResult<String> {
                         }
                     }
                     Ev::T(ms) => tokio::time::sleep(std::time::Duration::from_millis(ms)).await,
+                    Ev::CA | Ev::CF => {
+                        // the API is &mut self: a send still blocked in its write is finished first
+                        if let Some((idx, jh)) = inflight.take() {
+                            conns[conns.len() - 1].0.allow(None);
+                            results[idx] = Some(jh.await.unwrap_or(Err(())));
+                        }
+                        let mut c = client.lock().await;
+                        if matches!(e, Ev::CF) {
+                            let _ = c.connect().await;
+                        } else {
+                            let duplex = Duplex(Arc::new(Mutex::new(DState::default())));
+                            let mut handler = c.verif_attach_stream(duplex.clone());
+                            let reader_done = Arc::new(AtomicBool::new(false));
+                            let rd = Arc::clone(&reader_done);
+                            let dict_r = Arc::clone(&dict);
+                            tokio::spawn(async move {
+                                DiameterClient::handle(&mut handler, dict_r).await;
+                                rd.store(true, Ordering::SeqCst);
+                            });
+                            conns.push((duplex, reader_done));
+                            emitted.push(0);
+                            sel = conns.len() - 1;
+                        }
+                    }
+                    Ev::Sel(c) => {
+                        if c < conns.len() {
+                            sel = c;
+                        }
+                    }
                     Ev::P(h, cut, gap) => {
-                        let mut ans = DiameterMessage::new(CommandCode::CreditControl, ApplicationId::CreditControl, 0, h, emitted, Arc::clone(&dict));
+                        let mut ans = DiameterMessage::new(CommandCode::CreditControl, ApplicationId::CreditControl, 0, h, emitted[sel], Arc::clone(&dict));
                         ans.add_avp(268, None, M, Unsigned32::new(2001).into());
-                        emitted += 1;
+                        emitted[sel] += 1;
                         let mut b = Vec::new();
                         ans.encode_to(&mut b).expect("encode answer");
                         match cut {
                             Some(c) if c < b.len() => {
-                                duplex.push(&b[..c]);
+                                conns[sel].0.push(&b[..c]);
                                 settle().await;
                                 if gap > 0 {
                                     tokio::time::sleep(std::time::Duration::from_millis(gap)).await;
                                     settle().await;
                                 }
-                                duplex.push(&b[c..]);
+                                conns[sel].0.push(&b[c..]);
                             }
-                            _ => duplex.push(&b),
+                            _ => conns[sel].0.push(&b),
                         }
                     }
                     Ev::PT(h, cut) => {
@@ -325,17 +375,17 @@ pub fn run(st: &State, t: &mut Toks) -> PResult<String> {
                         let mut b = Vec::new();
                         ans.encode_to(&mut b).expect("encode answer");
                         let c = cut.min(b.len().saturating_sub(1));
-                        duplex.push(&b[..c]);
+                        conns[sel].0.push(&b[..c]);
                     }
                     Ev::B(kind) => match kind.as_str() {
-                        "eof" => duplex.end(false),
-                        "reset" => duplex.end(true),
-                        "garbage" => duplex.push(&[1, 0, 0, 0, 9, 9, 9, 9]),
+                        "eof" => conns[sel].0.end(false),
+                        "reset" => conns[sel].0.end(true),
+                        "garbage" => conns[sel].0.push(&[1, 0, 0, 0, 9, 9, 9, 9]),
                         _ => {
                             // a well-framed message carrying an AVP the dictionary does not know
                             let mut f = vec![1u8, 0, 0, 32, 0, 0, 1, 16, 0, 0, 0, 4, 0, 0, 0, 1, 0, 0, 0, 2];
                             f.extend_from_slice(&[0x00, 0xde, 0xad, 0x00, 0, 0, 0, 12, 0, 0, 0, 1]);
-                            duplex.push(&f);
+                            conns[sel].0.push(&f);
                         }
                     },
                 }
@@ -352,7 +402,7 @@ pub fn run(st: &State, t: &mut Toks) -> PResult<String> {
                 observe(&mut results, &mut resolved, ei);
             }
             if let Some((idx, jh)) = inflight.take() {
-                duplex.allow(None);
+                conns[conns.len() - 1].0.allow(None);
                 results[idx] = Some(jh.await.unwrap_or(Err(())));
             }
             settle().await;
@@ -380,7 +430,13 @@ pub fn run(st: &State, t: &mut Toks) -> PResult<String> {
                     None => out.push_str(" NOTSENT"),
                 }
             }
-            out.push_str(if reader_done.load(Ordering::SeqCst) { " READER stopped" } else { " READER alive" });
+            out.push_str(if conns[conns.len() - 1].1.load(Ordering::SeqCst) { " READER stopped" } else { " READER alive" });
+            if conns.len() > 1 {
+                out.push_str(" ALL");
+                for (_, rd) in &conns {
+                    out.push_str(if rd.load(Ordering::SeqCst) { " stopped" } else { " alive" });
+                }
+            }
             out
         })
     }));
